@@ -705,8 +705,29 @@ SPECS["C08"] = dict(
 
 SPECS["C06"] = dict(
     title="StreamReader returns exactly the valid delimited records of any byte stream",
-    lean_modules=["Woodpile.Props.C06"],
+    lean_modules=["Woodpile.Props.C06", "Woodpile.Props.C06U", "Woodpile.Props.C01"],
     theorems=[
+        "Woodpile.Props.C06U.hdec_prod",
+        "Woodpile.Props.C06U.prod_valid",
+        "Woodpile.Props.C06U.split_indep_prod",
+        "Woodpile.Props.C06U.decodePieces_is_spec",
+        "Woodpile.Props.C06U.reader_keepgoing",
+        "Woodpile.Props.C06U.reader_std_judge",
+        "Woodpile.Props.C01.enc_impl_refines_spec",
+        "Woodpile.Props.C01.enc_split_independent",
+        "Woodpile.Props.C01.dec_impl_refines_spec",
+        "Woodpile.Props.C01.dec_error_split_independent",
+        "Woodpile.Props.C01.dec_error_classified",
+        "Woodpile.Props.C01.dec_total",
+        "Woodpile.Props.C01.dec_feed_reachable",
+        "Woodpile.Props.C01.enc_inv_between_calls",
+        "Woodpile.Props.C01.enc_asserts_unreachable",
+        "Woodpile.Props.C01.enc_finish_asserts_unreachable",
+        "Woodpile.Props.C01.enc_feed_reachable",
+        "Woodpile.Props.C01.enc_refines_spec_drained",
+        "Woodpile.Props.C01.dec_refines_spec_drained",
+        "Woodpile.Props.C01.roundtrip_given_spec",
+        "Woodpile.Props.C01.roundtrip",
         "Woodpile.Props.C06.recordsAll_eq",
         "Woodpile.Props.C06.recordsStd_eq",
         "Woodpile.Props.C06.expectedSeq_spelled_out",
